@@ -21,7 +21,7 @@ BUDGET = {"quick": 200, "thorough": 900}
 RULE = ("2-4 actors (reused Parser, fresh Parsers, FiltersSet editor incl. extension-bound tags such as :regex/:count/:value/"
         ":copy/:create/:flags, reloader = parse, then - other actors' calls later - from_parser_result + render), histories of 4-30 whole public calls, the "
         "interleaving drawn by the scheduler; scripts from a pool of valid scripts with different require sets, invalid "
-        "scripts of each error class, and valid scripts truncated at a drawn byte (so that a parse ends mid-construct). "
+        "scripts of each error class, valid scripts truncated at a drawn byte (so that a parse ends mid-construct) and valid scripts with one tag replaced by a tag borrowed from another command. "
         "Baselines: each parse alone in a freshly forked pristine child; each editor/reloader history alone in a freshly "
         "forked pristine child. Non-trivial: at least two actors took turns and a failed/truncated parse or an extension-"
         "bound definition occurred. Distinct = (actor interleaving pattern, classes of scripts parsed).")
@@ -250,8 +250,28 @@ def parse_baseline(script):
 # the run
 # ---------------------------------------------------------------------------
 
+TAGS = [":over", ":under", ":is", ":contains", ":matches", ":regex", ":count", ":value", ":copy", ":create", ":flags", ":zone",
+        ":originalzone", ":comparator", ":days", ":subject", ":raw", ":text", ":content", ":localpart", ":domain", ":all",
+        ":mime", ":seconds", ":from", ":addresses", ":handle"]
+_TAG_RE = None
+
+
 def draw_script(wl, label, classes):
-    k = wl.weighted(label + ".class", [4, 3, 3])
+    global _TAG_RE
+    k = wl.weighted(label + ".class", [4, 3, 3, 2])
+    if k == 3:
+        # a valid script with one tag replaced by a tag borrowed from another command: mostly invalid, sometimes valid,
+        # always presenting a tag to a command that does not usually see it
+        import re
+        if _TAG_RE is None:
+            _TAG_RE = re.compile(r":[a-z]+")
+        base = VALID[wl.int(label + ".valid", len(VALID))]
+        spots = [m for m in _TAG_RE.finditer(base)]
+        classes.add("tag-swapped")
+        if not spots:
+            return base
+        m = spots[wl.int(label + ".spot", len(spots))]
+        return base[:m.start()] + TAGS[wl.int(label + ".tag", len(TAGS))] + base[m.end():]
     if k == 0:
         classes.add("valid")
         return VALID[wl.int(label + ".valid", len(VALID))]
@@ -355,7 +375,7 @@ def run(ch, config, res):
     res.count("steps", len(plan))
     pattern = "".join({"reused": "R", "fresh": "F", "reload-parse": "P", "reload-load": "L", "editor": "E"}[s[0]] for s in plan)
     turns = sum(1 for i in range(1, len(pattern)) if pattern[i] != pattern[i - 1])
-    if turns >= 1 and (classes & {"invalid", "truncated", "ext-bound-def"}):
+    if turns >= 1 and (classes & {"invalid", "truncated", "ext-bound-def", "tag-swapped"}):
         res.sigs.add("%s|%s" % (pattern, ",".join(sorted(classes))))
     for c in classes:
         res.count("class:" + c)
